@@ -531,6 +531,20 @@ func c07conns(r *Run) {
 		r.FailSig("connection-closed-on-isolated-loss", sig, "the client connection closed itself under isolated faults")
 		return
 	}
+	if out != GoalMet && len(writeErrs) > 0 && !dc.Closed() {
+		// A Write that failed under heavy loss is tolerated - but once the path is clean again (the drain phase
+		// above: minutes of fair, fault-free delivery) the connection, still open, must be usable: a later Write
+		// must return, not wait for ever for a queue that nobody empties any more.
+		busy := func(p *Peer) bool {
+			p.mu.Lock()
+			defer p.mu.Unlock()
+			return p.busy && !p.Closed
+		}
+		if busy(pc) || busy(ps) {
+			r.FailSig("write-blocked-after-recovery", sig, "%s: a Write failed while the path was losing (%v); minutes after the path had recovered, with the connection still open, a later Write had not returned (client in Write: %v, server in Write: %v; client accepted %d / server read %d, server accepted %d / client read %d)", out, writeErrs, busy(pc), busy(ps), cs, sr, ss, cr)
+			return
+		}
+	}
 	if out != GoalMet && len(writeErrs) == 0 {
 		r.FailSig("not-delivered", sig, "%s: once the path stopped losing, not everything accepted arrived / not every Write returned: client accepted %d (server read %d), server accepted %d (client read %d), scripts left %d/%d", out, cs, sr, ss, cr, len(pc.Script), len(ps.Script))
 		return
